@@ -320,7 +320,7 @@ def inverse2d(ctx, rng, idx):
         else:
             par["p"] = pb
             if name == "insup-angle":
-                ang = float(np.round(rng.uniform(-180, 180), 1)); par["angle"] = ang
+                ang = float(np.round(rng.uniform(-180, 180), 1)) if rng.random() < 0.6 else [0.0, 0, -0.0, 90.0, 90, 180.0, -90.0, -180.0, 270.0, 360.0][int(rng.integers(10))]; par["angle"] = ang
                 dvec = np.vstack([np.full(n, np.cos(np.deg2rad(ang))), np.full(n, np.sin(np.deg2rad(ang)))])
             else:
                 dvec = -nrm
@@ -413,7 +413,7 @@ def history(ctx, rng, idx):
         model = euler.euler2d(gamma=gam)
         sides = [(-1.0, 0.0), (1.0, 0.0), (0.0, -1.0), (0.0, 1.0)]
         order = [sides[i] for i in rng.permutation(4)] * 2
-        ang = float(np.round(rng.uniform(-180, 180), 1))
+        ang = float(np.round(rng.uniform(-180, 180), 1)) if rng.random() < 0.6 else [0.0, 0, -0.0, 90.0, 90, 180.0, -90.0, -180.0, 270.0, 360.0][int(rng.integers(10))]
         for k, nv in enumerate(order):
             nrm = np.vstack([np.full(n, nv[0]), np.full(n, nv[1])])
             rho = rho0 * rng.uniform(0.8, 1.25, n); p = p0 * rng.uniform(0.8, 1.25, n) if name != "insub" else np.full(n, p0)
